@@ -338,6 +338,10 @@ func (a *advSim) byzAct() {
 			}
 		}
 		a.tags = append(a.tags, "byz/round-change")
+		if pr != 0 && r.Chance(25) {
+			preps, _ = repeatMsgs(r, preps, a.env.q, a.env.n)
+			a.tags = append(a.tags, "byz/round-change-with-repeated-prepares")
+		}
 		if pr != 0 && r.Bool() {
 			a.sendDirect(enc(a.f.roundChange(me, rd, pr, val, preps)), a.someHonest(1+r.Intn(len(hs))))
 		} else {
